@@ -75,6 +75,31 @@ def entryOrInsert (f : Forest) (k : MapKind) (e : Nat) (default : Value) : Fores
   | .occupied key => (f, f.occGetMut k e key)
   | .vacant _ => f.vacInsert k e default
 
+/-- `…_mut(e).entry(key).or_insert_with(call)` (entry.rs `Entry::or_insert_with`):
+    `Occupied(entry) => entry.into_mut()`, `Vacant(entry) => entry.insert(call())` — the closure
+    runs for a vacant entry only.  `call ()` is the entry value `A::create(key, call())`; the `Bool`
+    says whether the closure ran. -/
+def entryOrInsertWith (f : Forest) (k : MapKind) (e key : Nat) (call : Unit → Value) :
+    Forest × Res × Bool :=
+  if !f.isElement e then (f, .panic, false) else
+  match f.mapEntry k e key with
+  | .occupied key => (f, f.occGetMut k e key, false)
+  | .vacant _ =>
+    let r := f.vacInsert k e (call ())
+    (r.1, r.2, true)
+
+/-- `if let Entry::Occupied(o) = …_mut(e).entry(key) { *o.into_mut() = new; }`
+    (`OccupiedEntry::into_mut`: `self.map.get_mut(self.key).unwrap()`, and a write of the payload
+    of `new` through the reference, whose lifetime is the map's); `false` = the entry was vacant. -/
+def occupiedIntoMutSet (f : Forest) (k : MapKind) (e key : Nat) (new : Value) : Forest × Res × Bool :=
+  if !f.isElement e then (f, .panic, false) else
+  match f.mapEntry k e key with
+  | .occupied key =>
+    (match f.mapGetNode k e key with
+     | some n => (f.setValue n.handle (entryUpdate n.value new), .ok, true)
+     | none => (f, .panic, true))
+  | .vacant _ => (f, .ok, false)
+
 /-- `attributes_mut(e).entry(name).or_default()`: `String::default()` is the empty string
     (`NamespaceId` has no `Default`, so there is no namespace version). -/
 def entryOrDefault (f : Forest) (e name : Nat) : Forest × Res :=
